@@ -248,7 +248,10 @@ impl<T: 'static+Send> Desync<T> {
 
 impl<T: Send> Drop for Desync<T> {
     fn drop(&mut self) {
+        #[cfg(not(logicalshift_desync_verif))]
         use std::thread;
+        #[cfg(logicalshift_desync_verif)]
+        use desync_verif_rt::thread;
 
         // Take the data we're about to drop from the object
         let data = DataRef::<T>(self.data);
@@ -269,5 +272,13 @@ impl<T: Send> Drop for Desync<T> {
                 mem::drop(unsafe { Box::from_raw(data) });
             });
         }
+    }
+}
+
+#[cfg(logicalshift_desync_verif)]
+impl<T: Send> Desync<T> {
+    /// Verification-only: the job queue that schedules this object
+    pub fn verif_queue(&self) -> &Arc<JobQueue> {
+        &self.queue
     }
 }
